@@ -200,6 +200,9 @@ M("c08_center_extra_on_left", "C08", "ak/color.py",
 M("c08_fixed_len_returns_self_shared", "C08", "ak/color.py",
   "        if len_diff < 0:\n            return self[:desired_len]\n        if len_diff > 0:\n            return self + \" \"*len_diff",
   "        if len_diff < 0:\n            return self[:desired_len]\n        if len_diff > 0:\n            self += \" \"*len_diff")
+M("c08_revert_fixed_len_copy", "C08", "ak/color.py",
+  "        # a new object, as in the other cases: the text can be modified in place (\"+=\")\n        return CHText(self)\n",
+  "        return self\n")
 M("c08_eq_ignores_colors_of_single_chunk", "C08", "ak/color.py",
   "        if isinstance(other, str):\n            return self.is_plain() and self.text == other\n\n        return NotImplemented\n\n    def __iadd__",
   "        if isinstance(other, str):\n            return self.text == other\n\n        return NotImplemented\n\n    def __iadd__")
